@@ -326,6 +326,23 @@ def cache_rules(ctx, facts):
         needs = [t for t in types if type_pushes(t)]
         clears = f.calls(r"InlinedVector<.*>::clear$")
         g = f.g
+        # ... or a helper that is handed the cache and clears it on every path (the `if constexpr` around the clear is resolved in the
+        # helper's instantiation exactly as it was here)
+        cache_param = f.rec["params"][0]["did"] if f.rec.get("params") else None
+        for hc in f.calls():
+            if hc in clears or not any(var_ref(a) == cache_param for a in (hc.get("args") or [])) or cache_param is None:
+                continue
+            hs = [x for x in facts.fns if x.config == "A" and x.name == hc.get("callee")]
+            if len(hs) != 1:
+                continue
+            h = hs[0]
+            pi = [i for i, a in enumerate(hc.get("args") or []) if var_ref(a) == cache_param]
+            if len(pi) != 1 or pi[0] >= len(h.rec.get("params") or []):
+                continue
+            hp = h.rec["params"][pi[0]]["did"]
+            hcl = [c for c in h.calls(r"InlinedVector<.*>::clear$") if var_ref(call_obj(c)) == hp]
+            if hcl and not h.g.exists_path([h.g.entry_node], [h.g.exit_node], avoid_nodes=npos(h, hcl)):
+                clears = clears + [hc]
         cp = npos(f, clears)
         first = npos(f, calls)
         ok = (not needs) or (bool(cp) and all(g.dominates(cp, p) for p in first))
